@@ -6,7 +6,7 @@ source arranges its statements, helpers and loops."""
 import re
 from absint.lin import Lin
 from absint.values import *
-from absint.models_content import content_segments, segments, show_segments
+from absint.models_content import content_segments, segments, show_segments, use_registry
 from rules.agent_e2 import Run, variant_of, bool_of
 
 M_ = "stun_types::message::"
@@ -396,6 +396,7 @@ def build_side(prog, chk, rule="build-side"):
     ALG = {"Sha1": ("hmac-sha1", 0x0008, 20), "Sha256": ("hmac-sha256", 0x001C, 32)}
     n_ok = {"Sha1": 0, "Sha256": 0}
     for r, st, ret in results:
+        use_registry(r.it)
         tr = r.trace(st)
         digs = [e for e in tr if e[0] == "digest" and str(e[1]).startswith("hmac")]
         pushes = [e for e in tr if e[0] == "push"]
@@ -596,28 +597,46 @@ def model_has(c):
 
 
 def adders(prog, chk):
+    """The four adders and the two queries, with the builder's list of present types a short list of symbolic types
+    (sizes 0..2) and everything analysed for real: the verdict of each return state is compared with the specification
+    evaluated on the comparisons the path decided (first present type, in list order, that conflicts)."""
     names = [f["name"] for f in prog.adts[MBADT]["variants"][0]["fields"]]
-    want_cells = ["a1*self.%d" % names.index("attributes"), "a1*self.%d" % names.index("attribute_types")]
-    summaries = {MBNS + "has_any_attribute": model_has_any, MBNS + "has_attribute": model_has, MBNS + "build": model_build_self, KEYFN: model_make_hmac_key}
+    i_attrs, i_types = names.index("attributes"), names.index("attribute_types")
+    want_cells = ["a1*self.%d" % i_attrs, "a1*self.%d" % i_types]
+    summaries = {MBNS + "build": model_build_self, KEYFN: model_make_hmac_key}
 
-    def run_adder(fn, setup=None):
+    def dyn_get_type(c):
+        # an attribute of unknown kind: its type is some 16-bit value, the same every time it is asked
+        v = Lin.var("type_of_attr")
+        c.st.sys.add_range(v, 0, 65535)
+        c.st.cells["ghost:q:type_of_attr"] = Num(v)
+        return [(c.st, Struct({0: Num(v)}))]
+
+    def run_adder(fn, k, extra_setup=None):
         key = MBNS + fn
         body = prog.bodies.get(key)
         if body is None:
             chk.fail(fn + "-table", "not found")
-            return None, []
-        def dyn_get_type(c):
-            # an attribute of unknown kind: its type is some 16-bit value, the same every time it is asked
-            v = Lin.var("type_of_attr")
-            c.st.sys.add_range(v, 0, 65535)
-            c.st.cells["ghost:q:type_of_attr"] = Num(v)
-            return [(c.st, Struct({0: Num(v)}))]
-        r = Run(prog, key, track_content=True, max_parts=2000, local_models=summaries, setup=setup,
+            return None, [], []
+        pv = [Lin.var("p%d" % i) for i in range(k)]
+
+        def setup(run, st):
+            for v in pv:
+                st.sys.add_range(v, 0, 65535)
+                st.cells["ghost:q:" + next(iter(v.t))] = Num(v)
+            sv = st.cells.get(run.self_cell)
+            if isinstance(sv, Struct):
+                lst = Seq(Lin.const(k), None, Struct({i: Struct({0: Num(v)}) for i, v in enumerate(pv)}, tag="elems") if pv else EMPTY)
+                st.cells[run.self_cell] = sv.with_field(i_types, lst)
+                st.cells["ghost:self0"] = st.cells[run.self_cell]
+            if extra_setup:
+                extra_setup(run, st)
+        r = Run(prog, key, track_content=True, max_parts=8000, local_models=summaries, setup=setup,
                 def_models={"stun_types::attribute::Attribute::get_type": dyn_get_type})
         if r.error or not r.results:
-            chk.fail(fn + "-table", "analysis", detail=r.error or "no return state")
-            return body, []
-        return body, [(r, st, ret) for st, ret in r.results]
+            chk.fail(fn + "-table", "analysis|%d present" % k, detail=r.error or "no return state")
+            return body, [], pv
+        return body, [(r, st, ret) for st, ret in r.results], pv
 
     def outcome(st, ret):
         res = variant_of(prog, ret)
@@ -626,119 +645,188 @@ def adders(prog, chk):
         e = ret.v[1].get(0)
         en = variant_of(prog, e)
         pay = e.v[next(iter(e.v))].get(0) if isinstance(e, Enum) and len(e.v) == 1 and e.v[next(iter(e.v))].f else None
-        return res, en, type_of_value(st, pay) if pay is not None else None
+        return res, en, pay
 
+    from absint.models_content import known_eq
+
+    def first_conflict(st, pv, query):
+        """-> (index of the first present type known to be in `query`, the query element it equals) | None | 'undecided'
+        query: list of (label, Lin)"""
+        for i, p_ in enumerate(pv):
+            hits = [(lab, known_eq(st, Num(p_), Num(q))) for lab, q in query]
+            if any(h is True for _, h in hits):
+                return i, next(lab for lab, h in hits if h is True)
+            if any(h is None for _, h in hits):
+                return "undecided"
+        return None
+    const = lambda v: Lin.const(v)
     # ---- add_attribute / add_raw_attribute
     for fn in ("add_attribute", "add_raw_attribute"):
         rule = fn + "-table"
-        body, results = run_adder(fn)
         n = 0
         seen = set()
-        for r, st, ret in results:
-            tr = r.trace(st)
-            qs = [e for e in tr if e[0] == "has-any"]
-            pushes = [e for e in tr if e[0] == "push"]
-            res, en, et = outcome(st, ret)
-            problems = []
-            if len(qs) != 1 or qs[0][1] is None:
-                problems.append("the presence question is not asked exactly once with a known list (%r)" % (qs,))
-            else:
-                q, ans = qs[0][1], qs[0][2]
-                tys = [x for x in q if isinstance(x, str)]
-                if sorted(x for x in q if isinstance(x, int)) != sorted([T_MI, T_M2, T_FP]) or len(tys) != 1:
-                    problems.append("the list asked about is %r, not {the attribute's type, MESSAGE-INTEGRITY, MESSAGE-INTEGRITY-SHA256, FINGERPRINT}" % (q,))
-                ty = tys[0] if tys else None
-                seen.add("none" if ans is None else "ty" if ans == ty else ans)
-                if ans is None:
+        body = None
+        for k in (0, 1, 2):
+            body, results, pv = run_adder(fn, k)
+            for r, st, ret in results:
+                use_registry(r.it)
+                n += 1
+                pushes = [e for e in r.trace(st) if e[0] == "push"]
+                res, en, pay = outcome(st, ret)
+                problems = []
+                if fn == "add_attribute":
+                    ty = Lin.var("type_of_attr")
+                else:
+                    a1 = r.self_before(st)
+                    av = st.cells.get(r.it.cell_of(r.fr, 2))
+                    tv = av.get(0).get(0).get(0) if isinstance(av, Struct) and isinstance(av.get(0), Struct) and isinstance(av.get(0).get(0), Struct) else None
+                    ty = tv.e if isinstance(tv, Num) else None
+                if ty is None:
+                    chk.fail(rule, "the type of the attribute being added is not known", body.loc())
+                    continue
+                fc = first_conflict(st, pv, [("ty", ty), (T_MI, const(T_MI)), (T_M2, const(T_M2)), (T_FP, const(T_FP))])
+                if fc == "undecided":
+                    problems.append("the call answers %s %s without deciding whether a present type conflicts" % (res, en))
+                elif fc is None:
+                    seen.add("none")
                     if res != "Ok":
                         problems.append("nothing conflicting is present but the attribute is refused (%s)" % en)
-                    if [e[1] for e in pushes] != want_cells:
+                    elif [e[1] for e in pushes] != want_cells:
                         problems.append("accepting does not push exactly one attribute and one type: %r" % ([e[1] for e in pushes],))
                     else:
-                        at = pushes[0][2]
-                        vn = variant_of(prog, at)
+                        vn = variant_of(prog, pushes[0][2])
                         if vn != ("Attr" if fn == "add_attribute" else "Raw"):
                             problems.append("the attribute stored is of kind %s" % vn)
-                        if type_of_value(st, pushes[1][2]) != ty:
-                            problems.append("the type recorded (%r) is not the attribute's type (%r)" % (type_of_value(st, pushes[1][2]), ty))
+                        if known_eq(st, pushes[1][2], Struct({0: Num(ty)})) is not True:
+                            problems.append("the type recorded (%r) is not the attribute's type" % (pushes[1][2],))
                 else:
-                    want = {T_MI: ("MessageIntegrityExists", None), T_M2: ("MessageIntegrityExists", None), T_FP: ("FingerprintExists", None)}.get(ans, ("AttributeExists", ty))
-                    if res != "Err" or en != want[0] or (want[1] is not None and et != want[1]):
-                        problems.append("with %s present the call returns %s %s(%r), not Err(%s)" % (ans, res, en, et, want[0]))
+                    lab = fc[1]
+                    seen.add(lab)
+                    want = {T_MI: "MessageIntegrityExists", T_M2: "MessageIntegrityExists", T_FP: "FingerprintExists"}.get(lab, "AttributeExists")
+                    if res != "Err" or en != want:
+                        problems.append("with a conflicting type (%s) present the call returns %s %s, not Err(%s)" % (lab, res, en, want))
+                    if want == "AttributeExists" and res == "Err" and known_eq(st, pay, Struct({0: Num(ty)})) is not True:
+                        problems.append("AttributeExists names %r, not the attribute's type" % (pay,))
                     if pushes:
                         problems.append("a refused attribute changes the builder: %r" % ([e[1] for e in pushes],))
-                # the three sealing types are never accepted through this door (documented panic)
-                if ty is not None and res == "Ok":
-                    m = re.match(r"^var:(.*)$", ty)
-                    for tv in (T_MI, T_M2, T_FP):
+                if res == "Ok":
+                    for tv_ in (T_MI, T_M2, T_FP):
                         s2 = st.sys.copy()
-                        for vname in (st.sys.vars() if m else ()):
-                            if repr(Lin.var(vname)) == m.group(1):
-                                s2.add_eq(Lin.var(vname) - tv)
-                                if s2.feasible():
-                                    problems.append("an attribute of type 0x%04x can be added through %s" % (tv, fn))
-            n += 1
-            chk.ob(rule, "%s|%s" % ("present=%s" % (qs[0][2] if qs and len(qs) == 1 else "?"), res if res == "Ok" else "Err(%s)" % en), not problems, body.loc(),
-                   detail="; ".join(sorted(set(problems))), how="E2 return state: the presence question and answer on the path, the result, the pushes")
-        chk.floor(rule + "-rows", n, 5)
-        chk.ob(rule, "every answer is analysed", seen >= {"none", "ty", T_MI, T_M2, T_FP}, body.loc() if body else None, detail=repr(seen))
+                        s2.add_eq(ty - tv_)
+                        if not s2.bottom and s2.feasible():
+                            problems.append("an attribute of type 0x%04x can be added through %s" % (tv_, fn))
+                chk.ob(rule, "%d present|%s|%s" % (k, "no conflict" if fc is None else fc if fc == "undecided" else "first conflict %s" % (fc[1],), res if res == "Ok" else "Err(%s)" % en),
+                       not problems, body.loc(), detail="; ".join(sorted(set(problems))), how="E2 return state over a short symbolic list of present types; specification evaluated on the comparisons the path decided")
+        chk.floor(rule + "-rows", n, 8)
+        chk.ob(rule, "every kind of conflict is analysed", seen >= {"none", "ty", T_MI, T_M2, T_FP}, body.loc() if body else None, detail=repr(seen))
 
     # ---- add_message_integrity
     rule = "add_message_integrity-table"
-    body = prog.bodies.get(MBNS + "add_message_integrity")
-    arg = {body.locals[i]["name"]: i for i in range(1, body.arg_count + 1)} if body else {}
+    body0 = prog.bodies.get(MBNS + "add_message_integrity")
+    arg = {body0.locals[i]["name"]: i for i in range(1, body0.arg_count + 1)} if body0 else {}
     for av, qwant in (("Sha1", [T_MI, T_M2, T_FP]), ("Sha256", [T_M2, T_FP])):
-        def setup(run, st, av=av):
+        def pin(run, st, av=av):
             c_ = run.it.cell_of(run.fr, arg["algorithm"])
             ev = st.cells.get(c_)
             if isinstance(ev, Enum):
                 st.cells[c_] = ev.only([v["name"] for v in prog.adts[ev.adt]["variants"]].index(av))
-        body, results = run_adder("add_message_integrity", setup)
         seen = set()
-        for r, st, ret in results:
-            tr = r.trace(st)
-            qs = [e for e in tr if e[0] == "has-any"]
-            pushes = [e for e in tr if e[0] == "push"]
-            res, en, et = outcome(st, ret)
-            problems = []
-            if len(qs) != 1 or qs[0][1] is None:
-                problems.append("the presence question is not asked exactly once with a known list (%r)" % (qs,))
-            else:
-                q, ans = qs[0][1], qs[0][2]
-                if sorted(q, key=repr) != sorted(qwant, key=repr):
-                    problems.append("the list asked about is %r, not %r" % (q, qwant))
-                seen.add(ans)
-                if ans is None:
+        for k in (0, 1, 2):
+            body, results, pv = run_adder("add_message_integrity", k, pin)
+            for r, st, ret in results:
+                use_registry(r.it)
+                pushes = [e for e in r.trace(st) if e[0] == "push"]
+                res, en, pay = outcome(st, ret)
+                problems = []
+                fc = first_conflict(st, pv, [(q, const(q)) for q in qwant])
+                if fc == "undecided":
+                    problems.append("the call answers %s %s without deciding whether a present type conflicts" % (res, en))
+                elif fc is None:
+                    seen.add(None)
                     if res != "Ok" or [e[1] for e in pushes] != want_cells:
                         problems.append("nothing conflicting is present but the result is %s %s with pushes %r" % (res, en, [e[1] for e in pushes]))
+                    # no other present type may be held against the call (e.g. MESSAGE-INTEGRITY before MESSAGE-INTEGRITY-SHA256 is allowed)
                 else:
-                    want = ("FingerprintExists", None) if ans == T_FP else ("AttributeExists", ans)
-                    if res != "Err" or en != want[0] or (want[1] is not None and et != want[1]):
-                        problems.append("with 0x%04x present the call returns %s %s(%r), not Err(%s)" % (ans, res, en, et, want[0]))
+                    lab = fc[1]
+                    seen.add(lab)
+                    want = "FingerprintExists" if lab == T_FP else "AttributeExists"
+                    if res != "Err" or en != want:
+                        problems.append("with 0x%04x present the call returns %s %s, not Err(%s)" % (lab, res, en, want))
+                    elif want == "AttributeExists" and known_eq(st, pay, Struct({0: Num(const(lab))})) is not True:
+                        problems.append("AttributeExists names %r, not 0x%04x" % (pay, lab))
                     if pushes:
                         problems.append("a refused call changes the builder")
-            chk.ob(rule, "%s|present=%s|%s" % (av, qs[0][2] if len(qs) == 1 else "?", res if res == "Ok" else "Err(%s)" % en), not problems, body.loc(),
-                   detail="; ".join(sorted(set(problems))), how="E2 return state")
-        chk.ob(rule, "%s|every answer is analysed" % av, seen >= set(qwant) | {None}, body.loc() if body else None, detail=repr(seen))
+                chk.ob(rule, "%s|%d present|%s|%s" % (av, k, "no conflict" if fc is None else fc if fc == "undecided" else "first conflict 0x%04x" % fc[1], res if res == "Ok" else "Err(%s)" % en),
+                       not problems, body.loc(), detail="; ".join(sorted(set(problems))), how="E2 return state")
+        chk.ob(rule, "%s|every kind of conflict is analysed" % av, seen >= set(qwant) | {None}, body0.loc() if body0 else None, detail=repr(seen))
 
     # ---- add_fingerprint
     rule = "add_fingerprint-table"
-    body, results = run_adder("add_fingerprint")
     seen = set()
-    for r, st, ret in results:
-        tr = r.trace(st)
-        qs = [e for e in tr if e[0] == "has-any"]
-        pushes = [e for e in tr if e[0] == "push"]
-        res, en, et = outcome(st, ret)
-        problems = []
-        if len(qs) != 1 or qs[0][1] is None or tuple(qs[0][1]) != (T_FP,):
-            problems.append("the presence question is not asked exactly once about FINGERPRINT (%r)" % ([q[1:] for q in qs],))
-        else:
-            ans = qs[0][2]
-            seen.add(ans)
-            if ans is None and (res != "Ok" or [e[1] for e in pushes] != want_cells):
-                problems.append("no fingerprint present but the result is %s %s with pushes %r" % (res, en, [e[1] for e in pushes]))
-            if ans is not None and (res != "Err" or en not in ("AttributeExists", "FingerprintExists") or pushes):
-                problems.append("a fingerprint is present but the result is %s %s with pushes %r" % (res, en, [e[1] for e in pushes]))
-        chk.ob(rule, "present=%s|%s" % (qs[0][2] if len(qs) == 1 else "?", res if res == "Ok" else "Err(%s)" % en), not problems, body.loc(), detail="; ".join(problems), how="E2 return state")
+    body = None
+    for k in (0, 1, 2):
+        body, results, pv = run_adder("add_fingerprint", k)
+        for r, st, ret in results:
+            use_registry(r.it)
+            pushes = [e for e in r.trace(st) if e[0] == "push"]
+            res, en, pay = outcome(st, ret)
+            problems = []
+            fc = first_conflict(st, pv, [(T_FP, const(T_FP))])
+            if fc == "undecided":
+                problems.append("the call answers %s %s without deciding whether a fingerprint is present" % (res, en))
+            elif fc is None:
+                seen.add(None)
+                if res != "Ok" or [e[1] for e in pushes] != want_cells:
+                    problems.append("no fingerprint present but the result is %s %s with pushes %r" % (res, en, [e[1] for e in pushes]))
+            else:
+                seen.add(T_FP)
+                if res != "Err" or en not in ("AttributeExists", "FingerprintExists") or pushes:
+                    problems.append("a fingerprint is present but the result is %s %s with pushes %r" % (res, en, [e[1] for e in pushes]))
+            chk.ob(rule, "%d present|%s|%s" % (k, "no conflict" if fc is None else fc if fc == "undecided" else "fingerprint present", res if res == "Ok" else "Err(%s)" % en), not problems, body.loc(),
+                   detail="; ".join(problems), how="E2 return state")
     chk.ob(rule, "both answers are analysed", seen >= {None, T_FP}, body.loc() if body else None, detail=repr(seen))
+
+    # ---- the two queries themselves
+    rule = "queries"
+    for k in (0, 1, 2):
+        for m in (1, 2):
+            qv = [Lin.var("q%d" % i) for i in range(m)]
+
+            def qsetup(run, st, qv=qv):
+                for v in qv:
+                    st.sys.add_range(v, 0, 65535)
+                    st.cells["ghost:q:" + next(iter(v.t))] = Num(v)
+                st.cells[run.it.cell_of(run.fr, 2)] = Seq(Lin.const(len(qv)), None, Struct({i: Struct({0: Num(v)}) for i, v in enumerate(qv)}, tag="elems"))
+            body, results, pv = run_adder("has_any_attribute", k, qsetup)
+            for r, st, ret in results:
+                use_registry(r.it)
+                fc = first_conflict(st, pv, [(i, q) for i, q in enumerate(qv)])
+                problems = []
+                got = variant_of(prog, ret)
+                if fc == "undecided":
+                    problems.append("answers %s without deciding" % got)
+                elif fc is None:
+                    if got != "None":
+                        problems.append("answers %s although no present type is asked about" % got)
+                else:
+                    pay = ret.v[1].get(0) if isinstance(ret, Enum) and 1 in ret.v else None
+                    if got != "Some" or known_eq(st, pay, Struct({0: Num(pv[fc[0]])})) is not True:
+                        problems.append("answers %r, not the first present type that is asked about" % (ret,))
+                chk.ob(rule, "has_any_attribute|%d present, %d asked|%s" % (k, m, got), not problems, body.loc(), detail="; ".join(problems), how="E2 return state")
+    for k in (0, 1, 2):
+        def hsetup(run, st):
+            v = Lin.var("q0")
+            st.sys.add_range(v, 0, 65535)
+            st.cells["ghost:q:q0"] = Num(v)
+            st.cells[run.it.cell_of(run.fr, 2)] = Struct({0: Num(v)})
+        body, results, pv = run_adder("has_attribute", k, hsetup)
+        for r, st, ret in results:
+            use_registry(r.it)
+            fc = first_conflict(st, pv, [(0, Lin.var("q0"))])
+            ans = bool_of(st, ret)
+            problems = []
+            if fc == "undecided" or ans is None:
+                problems.append("answers %r without deciding" % (ret,))
+            elif ans != (fc is not None):
+                problems.append("answers %r where presence is %s" % (ret, fc is not None))
+            chk.ob(rule, "has_attribute|%d present|%s" % (k, ans), not problems, body.loc(), detail="; ".join(problems), how="E2 return state")
